@@ -66,6 +66,19 @@ claimed = {
 }
 not_applicable_reason = {
 }
+# clauses added in round 4 (DESIGN §10.10)
+extra = {
+ "C01": "The limit handed to the inflater of a log block leaves room for the stream terminator and the block is read to EOF, so the on-disk length of the block is exact (INFLATE-SLACK).",
+ "C02": "The in-block scan of a seek advances with the same decoder as iteration: one decoder of value sizes per record kind (SINGLE-DECODER); the predicate of the restart search may be a closure or a method value.",
+ "C03": "Every record a sub-iterator returned with ok is queued on every path of init and advance (MERGE-NO-DROP).",
+ "C06": "The update-index gate compares with the transaction's running next index and rejects an inverted range (GATE-IDX).",
+ "C07": "What is spliced into the new list is the image of the list validated under the lock (LIST-VALID).",
+ "C11": "RefsFor keeps no per-lookup state on the shared Reader (REFSFOR-STATELESS).",
+ "C12": "The name check keeps no state on the handle between transactions (NAMECHECK-STATELESS).",
+ "C13": "The compaction writes with the handle's configuration unchanged (CONFIG-SAME).",
+ "C14": "The index position recorded for a section is taken per index level, inside the loop that writes the levels, also through helpers (INDEX-ROOT).",
+ "C18": "Predicates handed to sort.Search (closures or method values) are analysed for 0 <= i < n; helpers that are not in range for arbitrary arguments are decided in every caller's context on the read paths.",
+}
 pending = "static check not built yet in this round (see DESIGN §9 build order); nothing is claimed"
 
 checks, na = [], []
@@ -73,6 +86,8 @@ for p in props:
     i = p["id"]
     if i in claimed:
         tech, ref, text, note = claimed[i]
+        if i in extra:
+            text = text.rstrip() + " " + extra[i]
         checks.append({
           "property_id": i,
           "quick_cmd": "./run.sh %s quick" % i,
